@@ -196,7 +196,13 @@ func H_E2E_PowerFailure(v *verifrt.T) {
 	consume()
 	sentBefore := wire.sent
 	v.Assert(len(src.removed) == 0 || deliveries == 1, "C02 the source file is removed only after the receiver delivered and confirmed that version")
-	// both sides start again
+	// both sides start again — at once, or after three days (the delivery is
+	// then known to the receiver only from a day file of its log that the
+	// restart does not reload)
+	if v.Choose("down-for-days", 2) == 1 {
+		v.Advance(72 * time.Hour)
+		v.Reach("long-outage")
+	}
 	run()
 	v.KillProcess()
 	consume()
@@ -211,7 +217,7 @@ func H_E2E_PowerFailure(v *verifrt.T) {
 			n++
 		}
 		return false
-	}, v.Now().Add(-24*time.Hour), v.Now().Add(time.Hour))
+	}, v.Now().Add(-96*time.Hour), v.Now().Add(time.Hour))
 	v.Assert(n >= 1 && n <= 2, "C05 the delivery is logged once (twice only by a failure between logging and moving)")
 	if len(src.removed) > 0 {
 		v.Assert(del, "C02 a source file is removed only if its tag says so")
